@@ -40,8 +40,11 @@ import vlib  # noqa: E402
 from vlib import MachineryError, main  # noqa: E402
 
 # ------------------------------------------------------------------------------------ rune alphabet
-MULTI = {"ee": "é".encode(), "EE": "É".encode(), "zh": "中".encode(), "fffd": "\ufffd".encode(),
-         "xff": b"\xff", "bs": b"\\", "tab": b"\t", "nl": b"\n"}
+VALID_MULTI = {"ee": "é", "EE": "É", "zh": "中", "fffd": "\ufffd",
+               # case mapping changes the UTF-8 length: ı->I, ſ->S (2->1), ɐ<->Ɐ (2<->3), ⱥ<->Ⱥ (3<->2), K(Kelvin)->k (3->1)
+               "dli": "\u0131", "ls": "\u017f", "tua": "\u0250", "TUA": "\u2c6f", "ast": "\u2c65", "AST": "\u023a", "kel": "\u212a"}
+MULTI = {k: v.encode() for k, v in VALID_MULTI.items()}
+MULTI.update({"xff": b"\xff", "bs": b"\\", "tab": b"\t", "nl": b"\n"})
 B2TOK = sorted(((v, k) for k, v in MULTI.items()), key=lambda kv: -len(kv[0]))
 
 
@@ -83,8 +86,8 @@ def go_lit(b_or_toks):
         toks = b_or_toks
     out = ['"']
     for t in toks:
-        if t in ("ee", "EE", "zh", "fffd"):
-            out.append(MULTI[t].decode())
+        if t in VALID_MULTI:
+            out.append(VALID_MULTI[t])
         elif t == "xff":
             out.append("\\xff")
         elif t == "bs":
@@ -291,8 +294,10 @@ def input_class(c):
         if a["t"] == "s":
             if not a["v"]:
                 cl.add("empty")
-            if any(t in ("ee", "EE", "zh") for t in a["v"]):
+            if any(t in VALID_MULTI for t in a["v"]):
                 cl.add("multibyte")
+            if any(t in ("dli", "ls", "tua", "TUA", "ast", "AST", "kel") for t in a["v"]):
+                cl.add("case-changes-length")
             if "xff" in a["v"]:
                 cl.add("invalid-utf8")
         elif a["t"] == "i":
@@ -461,7 +466,8 @@ class Runner:
 INITIALISMS = ["ACL", "API", "ASCII", "CPU", "CSS", "DNS", "EOF", "GUID", "HTML", "HTTP", "HTTPS", "ID", "IP", "JSON",
                "LHS", "QPS", "RAM", "RHS", "RPC", "SLA", "SMTP", "SQL", "SSH", "TCP", "TLS", "TTL", "UDP", "UI", "UID",
                "UUID", "URI", "URL", "UTF8", "VM", "XML", "XMPP", "XSRF", "XSS"]
-WIDE = list("abdilrstuxzABDILRSTUXZ") + ["ee", "EE", "zh", "1", "8", "_", " ", "/", ".", "-", "xff", "tab"]
+WIDE = list("abdilrstuxzABDILRSTUXZ") + ["ee", "EE", "zh", "1", "8", "_", " ", "/", ".", "-", "xff", "tab",
+                                          "dli", "ls", "tua", "TUA", "ast", "AST", "kel"]
 
 
 def S(toks):
@@ -707,6 +713,7 @@ def run(ctx):
     cfg = "FuncLib_thorough.cfg" if thorough else "FuncLib_quick.cfg"
     f_main = tq.submit(ctx.tlc, "FuncLibMC", cfg, workers=1, timeout=1500, coverage=False)
     f_wit = tq.submit(ctx.tlc, "FuncLibMC", "FuncLib_witness.cfg", workers=1, timeout=300, count=False)
+    f_wit2 = tq.submit(ctx.tlc, "FuncLibMC", "FuncLib_witness2.cfg", workers=1, timeout=300, count=False)
 
     # builds meanwhile (main thread)
     drv = ctx.build_driver("funclib")
@@ -729,6 +736,10 @@ def run(ctx):
                              "ImplMatchesContract -- the invariant is vacuous:\n" + w.tail())
 
     dbg(ctx, "tlc done")
+    w2 = f_wit2.result()
+    if w2.violated != "ImplMatchesContract":
+        raise MachineryError("negated witness 2: a code shape that skips len(upper-case rune) bytes (ExportedImpl = \"upsize\") was NOT "
+                             "rejected -- the alphabet has no letter whose case mapping changes its UTF-8 length:\n" + w2.tail())
     # vacuity guards on the exported cases
     documented = {c.fn for c in cases}
     if len(documented) != 44:
@@ -742,6 +753,13 @@ def run(ctx):
         "exported of a multi-byte first letter": lambda c: c.fn == "exported" and c.args[0]["v"][:1] == ["ee"] and c.expect["v"][:1] == ["EE"],
         "exported of an initialism (id -> ID)": lambda c: c.fn == "exported" and c.args[0]["v"] == ["i", "d"] and c.expect["v"] == ["I", "D"],
         "exported of an initialism (url -> URL)": lambda c: c.fn == "exported" and c.args[0]["v"] == ["u", "r", "l"] and c.expect["v"] == ["U", "R", "L"],
+        "exported of a letter that shrinks when upper-cased (dotless i)": lambda c: c.fn == "exported" and c.args[0]["v"] == ["dli", "a"] and c.expect["v"] == ["I", "a"],
+        "exported of a letter that grows when upper-cased": lambda c: c.fn == "exported" and c.args[0]["v"] == ["tua", "a"] and c.expect["v"] == ["TUA", "a"],
+        "exported of a 3-byte letter with a 2-byte upper case": lambda c: c.fn == "exported" and c.args[0]["v"][:1] == ["ast"] and c.expect["v"][:1] == ["AST"],
+        "firstLower of the Kelvin sign": lambda c: c.fn == "firstLower" and c.args[0]["v"] == ["kel", "a"] and c.expect["v"] == ["k", "a"],
+        "lower of the Kelvin sign": lambda c: c.fn == "lower" and c.args[0]["v"] == ["kel"] and c.expect["v"] == ["k"],
+        "upper of dotless i": lambda c: c.fn == "upper" and c.args[0]["v"] == ["dli"] and c.expect["v"] == ["I"],
+        "firstIsLower of dotless i": lambda c: c.fn == "firstIsLower" and c.args[0]["v"][:1] == ["dli"] and c.expect["v"] is True,
         "exported of the empty string": lambda c: c.fn == "exported" and c.args[0]["v"] == [],
         "exported of an invalid first byte": lambda c: c.fn == "exported" and c.args[0]["v"][:1] == ["xff"],
         "firstIsLower of the empty string": lambda c: c.fn == "firstIsLower" and c.args[0]["v"] == [] and c.expect["v"] is False,
